@@ -14,6 +14,7 @@ BORROW_ONLY_LEAVES = {
     "<alloc::string::String as core::convert::AsRef<str>>::as_ref": "borrows",
     "std::ffi::OsStr::new": "reinterprets a &str as &OsStr",
     "std::ffi::os_str::OsStr::new": "reinterprets a &str as &OsStr",
+    "std::path::Path::new": "reinterprets a &str as &Path",
 }
 
 
